@@ -525,14 +525,18 @@ func r02_6(c *RC) {
 		if cf == nil {
 			return
 		}
-		has := false
-		instrs(cf, func(_ *ssa.BasicBlock, _ int, x ssa.Instruction) {
-			if xc, ok := x.(*ssa.Call); ok && calleeName(xc) == "output" {
-				has = true
+		// the visitor: the callback itself, or the method a thin callback
+		// hands each segment to
+		for _, vf := range withHelpers(p, cf, 1) {
+			has := false
+			instrs(vf, func(_ *ssa.BasicBlock, _ int, x ssa.Instruction) {
+				if xc, ok := x.(*ssa.Call); ok && calleeName(xc) == "output" {
+					has = true
+				}
+			})
+			if has && (vf == cf || len(cf.Blocks) <= 2) {
+				scan, clo = cl, vf
 			}
-		})
-		if has {
-			scan, clo = cl, cf
 		}
 	})
 	if scan == nil {
